@@ -200,6 +200,16 @@ def inferConv (post2 : Node) : Node × Option PyErr :=
     | .ok t => ((post2.setField "input_shape" ishape).setOutputType t, Option.none)
     | .error e => (post2.setField "input_shape" ishape, some e)
 
+/-- `np.array([c, *out])` of the pooling branch: a lone numpy integer keeps its own dtype; a
+uint64 next to the int64 entries of `out` makes numpy promote the whole array to float64, which
+the model declines -/
+def poolArray (c : Int) (out : List Int) (cv : Val) : Except PyErr Val :=
+  match out, cv with
+  | [], .npscalar dt d => .ok (Val.arr dt [1] d)
+  | _, .npscalar dt _ =>
+      if dt.kind == .uint && dt.size == 8 then .error unmodelled else .ok (shapeArray (c :: out))
+  | _, _ => .ok (shapeArray (c :: out))
+
 /-- the pooled output type -/
 def poolOutputType (pre post2 : Node) : Except PyErr Val := do
   let po ← getItem pre.outputType "output"
@@ -208,10 +218,9 @@ def poolOutputType (pre post2 : Node) : Except PyErr Val := do
     ((post2.field? "kernel_size").getD .none) ((post2.field? "stride").getD .none)
   let cv ← shapeIndex (← getItem post2.inputType "input") 0
   let c ← match Val.asInt? cv with | some c => pure c | Option.none => throw unmodelled
-  -- `np.array([c, *out])`: a lone numpy integer keeps its own dtype
-  let arr := match out, cv with
-    | [], .npscalar dt d => Val.arr dt [1] d
-    | _, _ => shapeArray (c :: out)
+  -- `np.array([c, *out])`: a lone numpy integer keeps its own dtype; a uint64 next to the
+  -- int64 entries of `out` makes numpy promote the whole array to float64 (declined)
+  let arr ← poolArray c out cv
   pure (typeDict "output" arr)
 
 /-- Step 3 for a pooling node. -/
